@@ -873,7 +873,7 @@ pub fn fals_c12(rng: &mut Rng, thorough: bool) -> Fals {
     let mut f = Fals::new();
     let mut o = GenOpts::default();
     o.wkind = 2;
-    let sizes = [1usize, 2, 63, 64, 65, 127, 128, 129, 200];
+    let sizes = [1usize, 2, 63, 64, 65, 127, 128, 129, 200, 191, 192, 193, 256, 257, 300];
     let reps = if thorough { 20 } else { 2 };
     let mut serial = 0usize;
     for rep in 0..reps {
